@@ -60,12 +60,14 @@ def _gen_geom(r, kind, small=False):
             cols = cols % m + 1            # prefer non-square shapes (axis mix-ups show)
         d = {"g": kind, "rows": rows, "cols": cols}
         if kind == "mapped_image":
-            d["map"] = r.choice(["sq1", "exp", "affine"]); d["order"] = r.choice(["C", "F"])
+            d["map"] = r.choice(R.ALL_MAPS if r.random() < 0.5 else R.COUPLING_MAPS); d["order"] = r.choice(["C", "F"])
         if kind == "mapped_noimap":
             d["map"] = "affine"
         return d
     if kind == "mapped_cont1d":
-        return {"g": kind, "n": n, "map": r.choice(["sq1", "exp", "affine"])}
+        if r.random() < 0.6:
+            n = max(n, 2)
+        return {"g": kind, "n": n, "map": r.choice(R.ALL_MAPS if r.random() < 0.5 else R.COUPLING_MAPS)}
     if kind == "step":
         steps = r.randint(1, 4 if small else 6)
         return {"g": kind, "steps": steps, "grid": steps * r.randint(1, 4) + r.randint(0, 2)}
@@ -76,6 +78,9 @@ def _gen_geom(r, kind, small=False):
         n = max(2, min(n, 8))
         return {"g": kind, "n": n, "k": r.randint(1, n - 1)}
     raise ValueError(kind)
+
+def _par_dim(spec):
+    return spec["n"] if "n" in spec else spec["rows"] * spec["cols"]
 
 def _reps_for(kind):
     if kind == "objfun":
@@ -121,6 +126,9 @@ def cases(tier, seed):
     for i in range(n_hist):
         k, rep = combos[j % len(combos)]; j += 1
         Ns = _gen_Ns(r)
+        gspec = _gen_geom(r, k)
+        if k.startswith("mapped") and r.random() < 0.3:
+            Ns = _par_dim(gspec)              # square (dim, Ns) block
         ops, cur = [], Ns
         for _ in range(r.randint(3, 8)):
             if r.random() < 0.5:
@@ -132,15 +140,39 @@ def cases(tier, seed):
                     cur = len(R.kept_indices(cur, b, t))
             else:
                 ops.append([r.choice(["funvals", "vector", "parameters"])])
-        out.append({"kind": "hist", "geom": _gen_geom(r, k), "rep": rep, "Ns": Ns, "ops": ops,
+        out.append({"kind": "hist", "geom": gspec, "rep": rep, "Ns": Ns, "ops": ops,
                     "percents": [_gen_percent(r) for _ in range(2)], "id": i})
+    # ---- hist, dedicated: user maps that couple the entries of one sample (or return views), Ns in {1, 2, dim, many}
+    r = core.rng_for(seed, PROPERTY, "couple")
+    bases = [("mapped_cont1d", None), ("mapped_image", "C"), ("mapped_image", "F")]
+    for mi, mp in enumerate(R.COUPLING_MAPS + ["flipview", "selfview"]):
+        for bi, (k, order) in enumerate(bases):
+            if not q or (mi + bi) % 2 == 0 or mp in ("softmax", "sortlast"):
+                reps_n = 1 if q else 3
+                for _ in range(reps_n):
+                    if k == "mapped_cont1d":
+                        gspec = {"g": k, "n": r.randint(2, 12), "map": mp}
+                    else:
+                        rows, cols = r.randint(1, 4), r.randint(2, 5)
+                        gspec = {"g": k, "rows": rows, "cols": cols, "map": mp, "order": order}
+                    dim = _par_dim(gspec)
+                    for Ns in (1, 2, dim, r.randint(dim + 1, 90)):
+                        b, t = _gen_bt(r, Ns)
+                        b = min(b, Ns - 1)
+                        ops = r.choice([[["funvals"], ["vector"], ["parameters"], ["funvals"]],
+                                        [["burnthin", b, t], ["funvals"], ["vector"], ["burnthin", 0, 2]],
+                                        [["funvals"], ["burnthin", b, t], ["parameters"]]])
+                        out.append({"kind": "hist", "tag": "couple", "geom": gspec, "rep": "par", "Ns": Ns, "ops": ops,
+                                    "percents": [95, _gen_percent(r)], "id": len(out)})
     # ---- stats
     r = core.rng_for(seed, PROPERTY, "stats")
     n_stats = 70 if q else 600
     for i in range(n_stats):
         k, rep = combos[(i * 5 + 3) % len(combos)]
-        out.append({"kind": "stats", "geom": _gen_geom(r, k), "rep": rep, "Ns": _gen_Ns(r),
-                    "dtype": r.choice(["float64", "float64", "int64", "float32", "ties", "const", "strided", "fortran", "big"]),
+        gspec = _gen_geom(r, k)
+        out.append({"kind": "stats", "geom": gspec, "rep": rep,
+                    "Ns": _par_dim(gspec) if (k.startswith("mapped") and r.random() < 0.3) else _gen_Ns(r),
+                    "dtype": r.choice(["float64", "float64", "int64", "float32", "ties", "const", "strided", "fortran", "big", "readonly", "readonly"]),
                     "percents": [0, 100, _gen_percent(r), _gen_percent(r), r.choice([100.5, 101, 250, -5])], "id": i})
     # ---- joint
     r = core.rng_for(seed, PROPERTY, "joint")
@@ -314,16 +346,18 @@ def make_samples(spec, rep, Ns, rs, flavour="float64"):
     """-> (Samples, RefSamples, library geometry, RefGeom). Values are positive (maps sq1/exp/log stay invertible)."""
     from cuqi.samples import Samples
     lib, ref = make_geom(spec)
+    fl = "float64" if flavour == "readonly" else flavour
     if rep == "par":
-        arr = _raw_values(rs, (ref.par_dim, Ns), flavour)
-        return Samples(arr, geometry=lib), R.RefSamples(arr.copy(), True, True), lib, ref
-    if rep == "funvec":
-        arr = _raw_values(rs, (ref.funvec_dim, Ns), flavour) + 1.0
-        return Samples(arr, geometry=lib, is_par=False, is_vec=True), R.RefSamples(arr.copy(), False, True), lib, ref
-    if rep == "fun":
-        arr = _raw_values(rs, ref.fun_shape + (Ns,), flavour) + 1.0
-        return Samples(arr, geometry=lib, is_par=False, is_vec=False), R.RefSamples(arr.copy(), False, False), lib, ref
-    raise ValueError(rep)
+        arr, flags = _raw_values(rs, (ref.par_dim, Ns), fl), (True, True)
+    elif rep == "funvec":
+        arr, flags = _raw_values(rs, (ref.funvec_dim, Ns), fl) + 1.0, (False, True)
+    elif rep == "fun":
+        arr, flags = _raw_values(rs, ref.fun_shape + (Ns,), fl) + 1.0, (False, False)
+    else:
+        raise ValueError(rep)
+    if flavour == "readonly":           # a write through the caller's array raises instead of passing silently
+        arr.setflags(write=False)
+    return Samples(arr, geometry=lib, is_par=flags[0], is_vec=flags[1]), R.RefSamples(arr.copy(), *flags), lib, ref
 
 # ----------------------------------------------------------------------------- monitors
 
